@@ -422,11 +422,21 @@ class World:
         np.random.randn = randn
         np.random.seed = seed
 
-    def to_sparse(self, dense):
+    def to_sparse(self, dense, explicit_zeros=False):
         from scipy import sparse
         cls = self.resolve("utils.SparseQuaternionMatrix")
         f = quaternion.as_float_array(dense)
-        parts = [sparse.csr_matrix(np.ascontiguousarray(f[..., c])) for c in range(4)]
+        parts = []
+        for c in range(4):
+            comp = np.ascontiguousarray(f[..., c])
+            if explicit_zeros:
+                # a legal CSR layout in which every entry is stored, zeros included
+                m, n = comp.shape
+                indptr = np.arange(0, m * n + 1, n)
+                indices = np.tile(np.arange(n), m)
+                parts.append(sparse.csr_matrix((comp.ravel().copy(), indices, indptr), shape=(m, n)))
+            else:
+                parts.append(sparse.csr_matrix(comp))
         return cls(parts[0], parts[1], parts[2], parts[3], dense.shape)
 
     def build_arg(self, spec):
@@ -435,7 +445,7 @@ class World:
             return items if spec["gen"] == "list" else tuple(items)
         v = gens.build(spec)
         if gens.is_sparse_spec(spec):
-            v = self.to_sparse(v)
+            v = self.to_sparse(v, explicit_zeros=bool(spec.get("explicit_zeros")))
         lay = spec.get("layout") if isinstance(spec, dict) else None
         if lay and isinstance(v, np.ndarray) and v.ndim == 2:
             # memory layouts a caller may legitimately hand over (the pristine world builds
